@@ -350,7 +350,16 @@ func Chmod(fs FS, name string, mode FileMode) error {
 		return &PathError{Op: "chmod", Path: name, Err: err}
 	}
 	defer func() { _ = file.Close() }()
-	return ChmodFile(file, mode)
+	return errUnderName(ChmodFile(file, mode), name)
+}
+
+// errUnderName reports a *PathError of an operation on the file opened for 'name' under that name:
+// the file itself often knows only its base name.
+func errUnderName(err error, name string) error {
+	if pathErr, ok := err.(*PathError); ok {
+		return &PathError{Op: pathErr.Op, Path: name, Err: pathErr.Err}
+	}
+	return err
 }
 
 // Chown attempts to call an optimized fs.Chown(), falls back to opening the file and running file.Chown().
@@ -368,7 +377,7 @@ func Chown(fs FS, name string, uid, gid int) error {
 		return &PathError{Op: "chown", Path: name, Err: err}
 	}
 	defer func() { _ = file.Close() }()
-	return ChownFile(file, uid, gid)
+	return errUnderName(ChownFile(file, uid, gid), name)
 }
 
 // Chtimes attempts to call an optimized fs.Chtimes(), falls back to opening the file and running file.Chtimes().
@@ -386,7 +395,7 @@ func Chtimes(fs FS, name string, atime time.Time, mtime time.Time) error {
 		return &PathError{Op: "chtimes", Path: name, Err: err}
 	}
 	defer func() { _ = file.Close() }()
-	return ChtimesFile(file, atime, mtime)
+	return errUnderName(ChtimesFile(file, atime, mtime), name)
 }
 
 // ReadDir attempts to call an optimized fs.ReadDir(), falls back to io/fs.ReadDir().
